@@ -327,7 +327,8 @@ func (s *Scenario) stats() (expected, refusedOverlap int) {
 				}
 				// an overlap that must be refused: other side has same p||c
 				for _, o := range s.Dirs[1-n] {
-					if o.P+o.C == d.P+d.C || (o.P == d.P && o.C != d.C) {
+					_, joined := JoinCollision(o.P, o.C, d.P, d.C) // incl. the plain concatenation
+					if joined || (o.P == d.P && o.C != d.C) {
 						refusedOverlap++
 						break
 					}
@@ -398,21 +399,28 @@ func runBatches(r *vf.Run, scens []*Scenario, rng *rand.Rand, batch int, eval fu
 			ok = QuiesceAll(60*time.Second, counters)
 		}
 		mark(2)
-		// dynamic scenarios: the links are up, now register the directives in order
-		anyDyn := false
+		// dynamic scenarios: the links are up, now register the directives in order,
+		// stage by stage with a process-wide quiescence after every stage
+		maxStages := 0
 		for _, it := range items {
 			if it.t != nil && it.err == "" && it.scen.Dynamic {
-				anyDyn = true
-				wg.Add(1)
-				go func(it *batchItem) {
-					defer wg.Done()
-					it.err = it.t.AddDirectivesInOrder()
-				}(it)
+				maxStages = max(maxStages, len(it.scen.stageList()))
 			}
 		}
-		wg.Wait()
-		if anyDyn && ok {
-			ok = QuiesceAll(60*time.Second, counters)
+		for k := 0; k < maxStages; k++ {
+			for _, it := range items {
+				if it.t != nil && it.err == "" && it.scen.Dynamic && k < len(it.scen.stageList()) {
+					wg.Add(1)
+					go func(it *batchItem) {
+						defer wg.Done()
+						it.err = it.t.AddStage(k)
+					}(it)
+				}
+			}
+			wg.Wait()
+			if ok {
+				ok = QuiesceAll(60*time.Second, counters)
+			}
 		}
 		mark(3)
 		for _, it := range items {
@@ -510,11 +518,53 @@ func RunTwoNodeC30(r *vf.Run) {
 		}
 		scens = append(scens, sc)
 	}
-	sampled := 0
+	// HISTORY block (own batches): two / three different requests on ONE node whose
+	// (id, context) coincide when joined with a separator-like byte (or plainly),
+	// registered before the links (static), one after the other with a quiescence
+	// in between (staged, both orders) or back to back (together), while the other
+	// node solicits exactly one of them (sometimes two).
+	srng := r.Rand("c30-two-node-separator-histories")
+	one := func(a, b DirSpec, remote DirSpec, swap bool) *Scenario {
+		sc := &Scenario{Links: 1, SwapIDs: swap, Dynamic: true, Note: "separator-family/staged/fixed",
+			Dirs: [2][]DirSpec{{a, b}, {remote}}, Stages: [][][2]int{{{0, 0}}, {{0, 1}}, {{1, 0}}}}
+		for _, st := range sc.Stages {
+			sc.Order = append(sc.Order, st...)
+		}
+		return sc
+	}
+	dx, dy := DirSpec{"dex/x", "y", PeerNone, TptNone}, DirSpec{"dex", "x/y", PeerNone, TptNone}
+	scens = append(scens, one(dx, dy, dx, false), one(dy, dx, dx, true), one(dx, dy, dy, true), one(dy, dx, dy, false))
+	for k, nSep := 0, r.N(44, 400); k < nSep; k++ {
+		kind := 1 // half staged, a quarter static, a quarter together
+		switch k % 4 {
+		case 0:
+			kind = 0
+		case 2:
+			kind = 2
+		}
+		// separators round-robin: every separator gets several families of every kind
+		scens = append(scens, GenSeparatorScenario(srng, kind, 3*k+k/4))
+	}
+	sampled, sampledSep := 0, 0
 	runBatches(r, scens, rng, 24, func(it *batchItem) {
 		s, t := it.scen, it.t
 		exp, refused := s.stats()
 		r.Case("2n|"+s.Sig(), exp > 0 && refused > 0)
+		if sj, pl := s.joinSiblings(); sj+pl > 0 {
+			r.Count("two_node_scenarios_with_local_requests_coinciding_when_joined", 1)
+			r.Count("two_node_local_request_pairs_coinciding_under_a_separator", sj)
+			r.Count("two_node_local_request_pairs_coinciding_in_plain_concatenation", pl)
+			if len(s.Stages) > 1 {
+				r.Count("two_node_scenarios_coinciding_requests_registered_with_quiescence_in_between", 1)
+			}
+		}
+		if s.Note != "" {
+			r.Count("two_node_scenarios_"+s.Note, 1)
+			if sampledSep < 2 && len(s.Stages) > 1 && exp > 0 {
+				sampledSep++
+				r.Sample(map[string]any{"kind": "two-node-history", "scenario": s, "expected_matches": exp, "streams_opened": len(t.Streams())})
+			}
+		}
 		r.Count("two_node_scenarios", 1)
 		r.Extra("directives_differing_only_in_transport_generated", transportDistinguished())
 		if s.Dynamic {
@@ -584,9 +634,21 @@ func RunTwoNodeC30(r *vf.Run) {
 								shiftedAdmitting = true
 							}
 						}
+						// same key under a non-empty separator: a local sibling or a remote request
+						sepJoined := false
+						for _, o := range append(append([]DirSpec(nil), s.Dirs[ni]...), s.Dirs[1-ni]...) {
+							if sp, ok := JoinCollision(o.P, o.C, d.P, d.C); ok && sp != "" {
+								sepJoined = true
+							}
+						}
 						switch {
 						case mergedCls != "":
 							cls = mergedCls
+						case sepJoined && !shiftedAdmitting && s.Admits(d, li):
+							cls = "separator-joined-key"
+							if len(s.Stages) > 1 {
+								cls += "/history"
+							}
 						case shiftedAdmitting && s.Admits(d, li):
 							cls = "boundary-shift"
 						case samePC || !s.Admits(d, li):
@@ -610,6 +672,12 @@ func RunTwoNodeC30(r *vf.Run) {
 						mkey := "two-node/missing-match"
 						if mergedCls != "" {
 							mkey += "/" + mergedCls
+						} else {
+							for _, o := range s.Dirs[ni] {
+								if sp, ok := JoinCollision(o.P, o.C, d.P, d.C); ok && sp != "" {
+									mkey = "two-node/missing-match/local-sibling-with-same-separator-joined-key"
+								}
+							}
 						}
 						r.Violation(mkey,
 							"both sides solicit the same (protocol id, context) and both constraints admit the link, but at quiescence the directive has no value for it",
@@ -640,6 +708,14 @@ func RunTwoNodeC31(r *vf.Run) {
 	for len(scens) < n {
 		scens = append(scens, GenScenario(rng, true))
 	}
+	// own batches: several local requests match one stream and one of their
+	// resolver handlers REJECTS the value or goes away around the match (real
+	// controllerbus instance close / release from inside the delivering AddValue
+	// call or at stream arrival; harness ResolverHandlers answering ok=false)
+	rrng := r.Rand("c31-two-node-reject")
+	for k, nRej := 0, r.N(72, 1200); k < nRej; k++ {
+		scens = append(scens, GenRejectScenario(rrng, k))
+	}
 	// accept / close plan is drawn up front so that it does not depend on arrival order
 	type plan struct{ seed uint64 }
 	plans := make([]plan, len(scens))
@@ -662,10 +738,11 @@ func RunTwoNodeC31(r *vf.Run) {
 			r.Count("two_node_values_delivered", len(vals))
 			// concurrent accept / close phase over ALL values of the node
 			type res struct {
-				val    int
-				op     string
-				ms     link.MountedStream
-				closed bool
+				val      int
+				op       string
+				ms       link.MountedStream
+				closed   bool
+				closesAt int // Close count of the stream end when the accept returned it
 			}
 			var mu sync.Mutex
 			var results []res
@@ -692,6 +769,9 @@ func RunTwoNodeC31(r *vf.Run) {
 							ms, _, err := v.Val.AcceptMountedStream()
 							if err == nil {
 								x.ms = ms
+								if f, ok := ms.(*FakeMountedStream); ok && f != nil {
+									x.closesAt = f.Strm.Closes()
+								}
 							}
 						} else if c, ok := v.Val.(interface{ Close() bool }); ok {
 							x.closed = c.Close()
@@ -705,6 +785,17 @@ func RunTwoNodeC31(r *vf.Run) {
 			close(start)
 			wg.Wait()
 			owners := map[*StreamRec][]int{} // stream -> values whose accept returned it
+			closedAtAccept := map[*StreamRec]int{}
+			// accepts made by the consumers inside the delivering AddValue call
+			for vi, v := range vals {
+				if v.EarlyMS != nil {
+					r.Count("two_node_accept_calls_inside_value_delivery", 1)
+					if rec, _ := t.StreamOf(v.EarlyMS); rec != nil {
+						owners[rec] = append(owners[rec], vi)
+						closedAtAccept[rec] += v.EarlyCloses
+					}
+				}
+			}
 			for _, x := range results {
 				if x.op == "accept" {
 					r.Count("two_node_accept_calls", 1)
@@ -712,6 +803,7 @@ func RunTwoNodeC31(r *vf.Run) {
 						rec, _ := t.StreamOf(x.ms)
 						if rec != nil {
 							owners[rec] = append(owners[rec], x.val)
+							closedAtAccept[rec] += x.closesAt
 						}
 					}
 				} else {
@@ -742,9 +834,25 @@ func RunTwoNodeC31(r *vf.Run) {
 						map[string]any{"scenario": s, "node": ni, "stream_protocol": string(rec.Proto), "link": rec.Link + 1, "owning_directives": dirs})
 				}
 				if c := rec.Ends[end].Closes(); c > 0 {
-					r.Violation("two-node/accepted-stream-closed",
-						"a stream that was accepted by a caller was closed through a solicitation value",
-						map[string]any{"scenario": s, "node": ni, "stream_protocol": string(rec.Proto), "closes": c, "owners": len(ow)})
+					var dirs []DirSpec
+					var modes []string
+					for _, o := range ow {
+						dirs = append(dirs, s.Dirs[ni][vals[o].Dir])
+						modes = append(modes, modeNames[s.Mode(ni, vals[o].Dir)])
+					}
+					wit := map[string]any{"scenario": s, "node": ni, "stream_protocol": string(rec.Proto), "closes": c, "owners": len(ow),
+						"owning_directives": dirs, "owner_modes": modes, "closes_seen_when_the_accept_returned_the_stream": closedAtAccept[rec],
+						"add_value_rejections_by_harness_handlers_on_node": node.Rejected.Load(), "sibling_instances_closed_by_consumers_on_node": node.SiblingCloses.Load(), "instances_closed_at_stream_arrival_on_node": node.GoneCloses.Load()}
+					if s.Note != "" {
+						r.Count("two_node_accepted_streams_closed_in_"+s.Note, 1)
+					}
+					if closedAtAccept[rec] > 0 {
+						r.Violation("two-node/closed-stream-handed-over",
+							"an accept returned a stream that had already been closed on this node (nobody but the solicitation machinery closes an unaccepted stream)", wit)
+					} else {
+						r.Violation("two-node/accepted-stream-closed",
+							"a stream that was accepted by a caller was closed through a solicitation value", wit)
+					}
 				}
 				r.Count("two_node_streams_accepted", 1)
 			}
@@ -765,6 +873,14 @@ func RunTwoNodeC31(r *vf.Run) {
 		}
 		r.Case("2n|"+s.Sig(), multi > 0)
 		r.Count("two_node_scenarios", 1)
+		if s.Note != "" {
+			r.Count("two_node_scenarios_"+s.Note, 1)
+		}
+		for ni := 0; ni < 2; ni++ {
+			r.Count("two_node_add_value_rejected_by_harness_resolver_handler", int(t.Nodes[ni].Rejected.Load()))
+			r.Count("two_node_sibling_instances_closed_inside_value_delivery", int(t.Nodes[ni].SiblingCloses.Load()))
+			r.Count("two_node_instances_closed_at_stream_arrival", int(t.Nodes[ni].GoneCloses.Load()))
+		}
 		r.Count("two_node_streams_with_several_matching_directives", multi)
 		if sampled < 2 && multi > 0 {
 			sampled++
